@@ -17,7 +17,7 @@ HISTORIES = ('run', 'run+continue', 'run+stop', 'run,reset,run', 'run(stop),cont
              'run,continue(new Solver)')
 RULE = ('configurations (exhaustive): every subset of the optional data on small topologies - spur pair and helical '
         'pair: 8 x 8 subsets of (module, face width, elastic modulus) of both gears; worm pair in both orientations: '
-        'worm reference diameter x wheel (module, face width); motor with / without current data - times 7 '
+        'worm reference diameter x wheel (module, face width); motor with / without current data or with only one of the two currents - times 7 '
         f'histories {HISTORIES}. chains (Hypothesis): random longer valid chains with random histories. After EVERY '
         'operation of the history, for every element and every key of time_variables: the list has exactly '
         'len(powertrain.time) samples, each sample is an instance of the variable\'s kind (pwm: int/float), the last '
@@ -154,14 +154,17 @@ def enum_configs():
             'init': {'pos': [0.0, 'rad'], 'speed': [0.0, 'rad/s']},
             'stop': {'sensor': 'encoder', 'target': 1, 'op': 'ge', 'threshold': [0.5, 'rad']}}
     motors = [{'J': J, 'w0': [2000, 'rpm'], 'tmax': [1, 'Nm'], 'i0': None, 'imax': None, 'pwm0': 1},
-              {'J': J, 'w0': [2000, 'rpm'], 'tmax': [1, 'Nm'], 'i0': [0.2, 'A'], 'imax': [5, 'A'], 'pwm0': 1}]
+              {'J': J, 'w0': [2000, 'rpm'], 'tmax': [1, 'Nm'], 'i0': [0.2, 'A'], 'imax': [5, 'A'], 'pwm0': 1},
+              # only one of the two optional currents: no current can be computed, none may be advertised
+              {'J': J, 'w0': [2000, 'rpm'], 'tmax': [1, 'Nm'], 'i0': None, 'imax': [5, 'A'], 'pwm0': 1},
+              {'J': J, 'w0': [2000, 'rpm'], 'tmax': [1, 'Nm'], 'i0': [0.2, 'A'], 'imax': None, 'pwm0': 1}]
     for hist in HISTORIES:
         for mi, motor in enumerate(motors):
             for t in ('spur', 'helical'):
                 extra = {'helix': [20, 'deg']} if t == 'helical' else {}
                 for ma in range(8):
                     for mb in range(8):
-                        if mi == 1 and (ma + mb) % 3:      # the motor variant is crossed with a third of the subsets
+                        if mi >= 1 and (ma + mb + mi) % 3:      # the motor variants are crossed with a third of the subsets each
                             continue
                         a = _subset(dict({'type': t, 'n_teeth': 12, 'J': J, 'link': {'kind': 'joint'}}, **extra), keys, ma, vals)
                         bb = _subset(dict({'type': t, 'n_teeth': 30, 'J': J, 'link': {'kind': 'gear', 'eta': 0.9}}, **extra),
